@@ -22,6 +22,24 @@ Beyond the small scope (round 2):
     totals stay the same), repeated calls, changing source/sink; every call is judged against the graph as it is at that call.
     The last call of every sequence is repeated in a fresh interpreter on an equal, newly built dict and must give the
     identical Result (frame:result-independent-of-call-history).
+
+Presentation diversity (round 3, checks/flow_present.py): the instances of the small-scope and mid-size generators (exhaustive
+multisets with <= 3 arcs, crossing template, degenerate shapes, layered / random / re-open / path-system networks) are dressed up
+before the call, the answer is mapped back to nodes 0..n-1 and judged by the same five ensures clauses on the plain instance:
+  * node labels ("any node labels"): None as source / sink / inner node, falsy values (0, '', (), None, frozenset()), pairs of
+    other nodes (the same values as the keys of the flow dictionary), nested tuples, frozensets, labels that collide after str()
+    (1 and '1', None and 'None'), equal-but-differently-typed spellings of one node (2 as key, 2.0 / True in arc heads and in the
+    source / sink argument), ints with colliding hashes, mutually incomparable mixtures; equal tuple / frozenset labels are
+    distinct objects;
+  * numbers: every capacity an int, every capacity a float with integral value, or mixed in one graph with an int first;
+  * containers: dict / defaultdict(list) / OrderedDict, adjacency as list or tuple, arc records as tuples or lists with 2, 3 or
+    4 fields; which nodes are keys (a node - also the source or the sink - may occur as an arc head only; head-only nodes with
+    an empty adjacency before / among / after the tails; reversed and shuffled key order);
+  * frame:inputs-unchanged          the caller's graph object prints the same after the call (same keys, same order, same arcs,
+                                    same element types; a defaultdict must not have grown keys)
+  * frame:same-call-same-answer     the same call repeated on the same object returns the same objective and flow dictionary.
+Not used (outside the statement / signature): generators or other one-shot iterables as adjacency (the signature says list),
+bool or non-integral capacities ("non-negative integer capacities"), NaN labels.
 """
 from __future__ import annotations
 
@@ -33,12 +51,14 @@ import signal
 import subprocess
 import sys
 
+from checks import flow_present as fp
 from vf.core import Ctx, use_repo
 from vf.pool import pmap
 
 LEVEL = "exploration"
 P = "C08/max_flow/"
 TIMEOUT_S = 5.0
+PRESENT_TIMEOUT_S = 0.3  # presented instances have <= 40 nodes (a call on the unchanged tree takes < 5 ms); two calls per instance
 
 
 def ladder_timeout(n):
@@ -56,10 +76,7 @@ def _on_alarm(*_a):
 
 
 # ----------------------------------------------------------------------------------------------- case -> call
-def mk_label(spec):
-    if isinstance(spec, dict):
-        return tuple(mk_label(x) for x in spec["t"])
-    return spec
+mk_label = fp.mk_label  # JSON-able label specs: {"t": [...]} tuple, {"fs": [...]} frozenset, scalars stand for themselves
 
 
 LABEL_SCHEMES = ("int", "str", "tuple", "neg", "mixed", "falsy")
@@ -102,13 +119,35 @@ def snapshot(g, back):
     return [(back[u], back[v[0]], v[1]) for u in g for v in g[u]]
 
 
-def judge_call(g, lab, back, n, s, t, brute=True, timeout=TIMEOUT_S):
-    """One max_flow call on the graph object g, judged against the arcs g holds right now.
+def _guarded(g, a, b, timeout):
+    """max_flow under a CPU-time guard (machine load cannot fake a hang) -> ("ok", Result) | ("timeout", None) | ("exc", text)."""
+    from solvor.flow import max_flow
+    signal.signal(signal.SIGVTALRM, _on_alarm)
+    signal.setitimer(signal.ITIMER_VIRTUAL, timeout)
+    try:
+        return "ok", max_flow(g, a, b)
+    except _Timeout:
+        return "timeout", None
+    except Exception as e:  # noqa
+        return "exc", f"raised {type(e).__name__}: {e}"
+    finally:
+        signal.setitimer(signal.ITIMER_VIRTUAL, 0)
+
+
+_DEF = object()  # "not given" (None is a legal node label)
+
+
+def judge_call(g, lab, back, n, s, t, brute=True, timeout=TIMEOUT_S, arcs=None, src=_DEF, snk=_DEF, frame=False):
+    """One max_flow call on the graph object g, judged against the arcs g holds right now (or against `arcs`, the plain
+    instance a presented graph was made from).  src / snk: how source and sink are spelled in the call (default lab[s], lab[t]).
+    frame=True: also the two frame clauses - g prints the same after the call, and a second identical call returns the same.
     Returns (list of (obligation, detail), info, result summary or None)."""
     from oracles.flow_exact import edmonds_karp, min_cut_brute, st_flow_defects
-    from solvor.flow import max_flow
 
-    arcs = snapshot(g, back)
+    if arcs is None:
+        arcs = snapshot(g, back)
+    src = lab[s] if src is _DEF else src
+    snk = lab[t] if snk is _DEF else snk
     tr = {}
     value, _fl, closed, used_rev = edmonds_karp(n, arcs, s, t, tr)
     if brute and n <= 8:
@@ -116,27 +155,46 @@ def judge_call(g, lab, back, n, s, t, brute=True, timeout=TIMEOUT_S):
         if bv != value:
             raise AssertionError(f"oracles disagree: Edmonds-Karp {value}, brute-force min cut {bv} on {(n, arcs, s, t)}")
     info = {"value": value, "used_reverse": used_rev, "reopened": tr["reopened"], "augmentations": tr["augmentations"]}
-    signal.signal(signal.SIGVTALRM, _on_alarm)  # CPU-time guard (machine load cannot fake a hang)
-    signal.setitimer(signal.ITIMER_VIRTUAL, timeout)
-    try:
-        res = max_flow(g, lab[s], lab[t])
-    except _Timeout:
+    before = fp.snap(g) if frame else None
+    st, res = _guarded(g, src, snk, timeout)
+    if st == "timeout":
         info["timeout"] = True
         return [], info, None
-    except Exception as e:  # noqa
-        return [(P + "ensures:returns", f"raised {type(e).__name__}: {e}")], info, None
-    finally:
-        signal.setitimer(signal.ITIMER_VIRTUAL, 0)
     out = []
+    if frame:
+        after = fp.snap(g)
+        if after != before:
+            out.append((P + "frame:inputs-unchanged", f"the caller's graph was {before[0][:400]} before the call and is "
+                        f"{after[0][:400]} after it"))
+    if st == "exc":
+        return out + [(P + "ensures:returns", res)], info, None
+    if frame:
+        st2, res2 = _guarded(g, src, snk, timeout)
+        if st2 == "timeout":
+            info["timeout"] = True
+        elif st2 == "exc":
+            out.append((P + "frame:same-call-same-answer", f"the first call returned objective {res.objective!r}, the same call "
+                        f"again {res2}"))
+        elif (res2.objective, res2.solution) != (res.objective, res.solution):
+            out.append((P + "frame:same-call-same-answer", f"the first call returned objective {res.objective!r} flow "
+                        f"{str(res.solution)[:200]}, the same call again objective {res2.objective!r} flow {str(res2.solution)[:200]}"))
     sol = res.solution
     if not isinstance(sol, dict):
-        return [(P + "ensures:returns", f"solution is {type(sol).__name__}, not a flow dictionary")], info, None
+        return out + [(P + "ensures:returns", f"solution is {type(sol).__name__}, not a flow dictionary")], info, None
     fl = {}
     for key, f in sol.items():
-        if not (isinstance(key, tuple) and len(key) == 2 and key[0] in back and key[1] in back):
+        try:
+            ok = isinstance(key, tuple) and len(key) == 2 and key[0] in back and key[1] in back
+        except TypeError:  # unhashable
+            ok = False
+        if not ok:
             out.append((P + "ensures:capacity", f"flow key {key!r} is not a pair of nodes of the graph"))
             continue
-        fl[(back[key[0]], back[key[1]])] = f
+        k2 = (back[key[0]], back[key[1]])
+        if k2 in fl:  # two spellings of the same arc (2 and 2.0): their flows add up
+            fl[k2] = fl[k2] + f
+        else:
+            fl[k2] = f
     bad, net_t, _net_s, augmenting = st_flow_defects(n, arcs, s, t, fl)
     for b in bad[:4]:
         ob = "ensures:conservation" if b.startswith("conservation") else "ensures:capacity"
@@ -153,10 +211,30 @@ def judge_call(g, lab, back, n, s, t, brute=True, timeout=TIMEOUT_S):
     return out, info, summary
 
 
+def present(case):
+    """kind 'present' -> (graph object in the presentation, labels, back map, source spelling, sink spelling)."""
+    lab = [mk_label(x) for x in case["labels"]]
+    back = {l: i for i, l in enumerate(lab)}
+    alias = case.get("alias", {})
+    g = fp.present_graph(case["n"], case["arcs"], case["labels"], alias, case["pres"], junk=case.get("form", 2) - 2)
+    return (g, lab, back, fp.call_label(case["s"], case["labels"], alias, case["pres"]),
+            fp.call_label(case["t"], case["labels"], alias, case["pres"]))
+
+
+def eval_present(case):
+    g, lab, back, src, snk = present(case)
+    arcs = [tuple(a[:3]) for a in case["arcs"]]
+    out, info, _ = judge_call(g, lab, back, case["n"], case["s"], case["t"], arcs=arcs, src=src, snk=snk, frame=True,
+                              timeout=PRESENT_TIMEOUT_S)
+    return out, info
+
+
 def eval_case(case):
     """Returns (list of (obligation, detail), info dict).  info: value, used_reverse, reopened, nontrivial."""
     if case.get("kind") == "history":
         return eval_history(case)
+    if case.get("kind") == "present":
+        return eval_present(case)
     g, lab = build_graph(case)
     back = {l: i for i, l in enumerate(lab)}
     big = case["n"] > 40
@@ -251,7 +329,8 @@ def case_key(case):
     if case.get("kind") == "history":
         return hash(json.dumps(case, sort_keys=True))
     return hash((case["n"], case["s"], case["t"], tuple(map(tuple, case["arcs"])), repr(case["labels"]),
-                 case.get("form", 2), tuple(case.get("isolated", []))))
+                 case.get("form", 2), tuple(case.get("isolated", [])),
+                 json.dumps([case.get("pres"), case.get("alias")], sort_keys=True)))
 
 
 def run_cases(cases, lasts=None):
@@ -261,7 +340,11 @@ def run_cases(cases, lasts=None):
     nrev = nreo = ncalls = maxaug = 0
     per_ob = {}
     tripped = False  # a big call timed out in this job: the remaining big cases of the job are not run (recorded as undecided)
+    small_to = skipped_present = 0  # presented instances: after 2 time-outs in one job the rest of the job is not run either
     for case in cases:
+        if small_to >= 2 and case.get("kind") == "present":
+            skipped_present += 1
+            continue
         if tripped and case["n"] > 40:
             touts.append({"n": case["n"], "gen": case.get("gen"), "skipped": "after a time-out in the same worker job"})
             continue
@@ -274,6 +357,7 @@ def run_cases(cases, lasts=None):
         if info.get("timeout"):
             touts.append(case if case["n"] <= 40 else {"n": case["n"], "gen": case.get("gen")})
             tripped = tripped or case["n"] > 40
+            small_to += case.get("kind") == "present"
         if info["value"] >= 1:
             keys.append(case_key(case))
         if info["used_reverse"]:
@@ -290,7 +374,9 @@ def run_cases(cases, lasts=None):
             per_ob[ob] = per_ob.get(ob, 0) + 1
             if per_ob[ob] <= 3:
                 viol.append((ob, case, detail))
-    return len(cases), keys, viol, [nrev, nreo, ncalls, maxaug], touts, per_ob
+    if skipped_present:
+        touts.append({"kind": "present", "not_run_after_2_time-outs_in_the_same_worker_job": skipped_present})
+    return len(cases) - skipped_present, keys, viol, [nrev, nreo, ncalls, maxaug], touts, per_ob
 
 
 # --------------------------------------------------------------------------------------------------- scopes
@@ -690,6 +776,70 @@ def w_seeded(job):
     return r
 
 
+# ------------------------------------------------------------------------- round 3: presentation diversity
+def dress(base, rng, scheme=None):
+    """A structural instance (nodes 0..n-1, int capacities) in a randomly chosen presentation (checks/flow_present.py)."""
+    n, s, t = base["n"], base["s"], base["t"]
+    scheme = scheme or rng.choice(fp.LABEL_SCHEMES)
+    labels, alias = fp.labels_for(scheme, n, s, t, rng)
+    return {"kind": "present", "n": n, "arcs": [list(a[:3]) for a in base["arcs"]], "s": s, "t": t, "labels": labels,
+            "alias": alias, "pres": fp.random_pres(rng, scheme), "form": rng.choice((2, 2, 3, 4))}
+
+
+def pres_counts(cases):
+    c = {}
+    for case in cases:
+        pr = case["pres"]
+        for k in ("scheme", "map", "adj", "arc", "num", "keys"):
+            key = f"{k}={pr[k]}"
+            c[key] = c.get(key, 0) + 1
+        key = f"fields={case['form']}"
+        c[key] = c.get(key, 0) + 1
+    return c
+
+
+def w_present_exh(job):
+    """job = (n, k, prefix, caps, seed, reps): every multiset of k arc types starting with `prefix`, each in `reps`
+    presentations (label schemes taken round robin, the rest drawn per instance)."""
+    n, k, prefix, caps, seed, reps = job
+    rng = random.Random(seed)
+    types = arc_types(n, caps)
+    cases = []
+    lo = prefix[-1] if prefix else 0
+    i = rng.randrange(len(fp.LABEL_SCHEMES))
+    for rest in itertools.combinations_with_replacement(range(lo, len(types)), k - len(prefix)):
+        arcs = [list(types[j]) for j in prefix + rest]
+        rng.shuffle(arcs)
+        for _ in range(reps):
+            i += 1
+            cases.append(dress({"n": n, "arcs": arcs, "s": 0, "t": n - 1}, rng, fp.LABEL_SCHEMES[i % len(fp.LABEL_SCHEMES)]))
+    return run_cases(cases) + ([], pres_counts(cases))
+
+
+def w_present_list(job):
+    bases, seed, reps = job
+    rng = random.Random(seed)
+    cases = []
+    i = rng.randrange(len(fp.LABEL_SCHEMES))
+    for b in bases:
+        for _ in range(reps):
+            i += 1
+            cases.append(dress(b, rng, fp.LABEL_SCHEMES[i % len(fp.LABEL_SCHEMES)]))
+    return run_cases(cases) + ([], pres_counts(cases))
+
+
+def w_present_seeded(job):
+    kind, seed, count, nmax = job
+    rng = random.Random(seed)
+    gen = {"layered": gen_layered, "random": lambda r: gen_random(r, nmax), "reopen": gen_reopen, "paths": gen_paths}[kind]
+    i = rng.randrange(len(fp.LABEL_SCHEMES))
+    cases = []
+    for _ in range(count):
+        i += 1
+        cases.append(dress(gen(rng), rng, fp.LABEL_SCHEMES[i % len(fp.LABEL_SCHEMES)]))
+    return run_cases(cases) + ([], pres_counts(cases))
+
+
 def w_list(cases):
     return run_cases(cases)
 
@@ -700,6 +850,8 @@ def _merge(ctx, results, tally):
         n_eval, keys, viol, (nrev, nreo, ncalls, maxaug), touts, per_ob = r[:6]
         tally["maxaug"] = max(tally["maxaug"], maxaug)
         tally["lasts"] += r[6] if len(r) > 6 else []
+        for k, c in (r[7] if len(r) > 7 else {}).items():
+            tally["pres"][k] = tally["pres"].get(k, 0) + c
         tally["eval"] += n_eval
         tally["rev"] += nrev
         tally["reo"] += nreo
@@ -711,7 +863,7 @@ def _merge(ctx, results, tally):
             tally["viol"].append((ob, case, detail))
         for c in touts:
             ctx.undecided.append({"obligation": P + "call-returns", "why": f"no result within the CPU budget ({TIMEOUT_S} s; more than 40 "
-                                  f"nodes: max(2, (n/100)^2/5) s) on {c}"})
+                                  f"nodes: max(2, (n/100)^2/5) s; presented instances: {PRESENT_TIMEOUT_S} s) on {c}"})
 
 
 def _size(case):
@@ -728,8 +880,11 @@ def run(ctx: Ctx):
     lasts_all = []
 
     def scope_run(name, results, **desc):
-        tally = {"eval": 0, "rev": 0, "reo": 0, "calls": 0, "maxaug": 0, "fails": {}, "viol": [], "lasts": []}
+        tally = {"eval": 0, "rev": 0, "reo": 0, "calls": 0, "maxaug": 0, "fails": {}, "viol": [], "lasts": [], "pres": {}}
         _merge(ctx, results, tally)
+        if tally["pres"]:
+            desc["presentations_measured"] = dict(sorted(tally["pres"].items()))
+            tally["calls"] *= 2  # every presented instance is solved twice (frame:same-call-same-answer)
         ctx.scope(name, evaluations=tally["eval"], max_flow_calls=tally["calls"],
                   needed_reverse_arc_in_reference_run=tally["rev"],
                   saturated_then_cancelled_then_reused_arc_in_reference_run=tally["reo"],
@@ -838,6 +993,35 @@ def run(ctx: Ctx):
               how="`python -m checks.C08 --fresh`: new interpreter, equal dict built from scratch (same key and list order), "
                   "one max_flow call; objective and flow dictionary must be identical")
 
+    # 8. round 3 - presentation diversity: the small-scope and mid-size instances in other legal spellings
+    what = dict(labels={k: fp.SCHEME_DOC[k] for k in fp.LABEL_SCHEMES},
+                numbers="capacities all int | all float with integral value | mixed, an int first (ints that would leave the exact "
+                        "float range stay ints)",
+                containers="dict | defaultdict(list) | OrderedDict; adjacency list | tuple; arc records tuple | list | mixed, 2..4 "
+                           "numeric fields", keys=fp.KEY_DOC,
+                clauses="the five ensures clauses on the instance mapped back to 0..n-1 + frame:inputs-unchanged + "
+                        "frame:same-call-same-answer")
+    reps = 1 if ctx.quick else len(fp.LABEL_SCHEMES)
+    KP = 3
+    jobs = []
+    for n in (2, 3, 4):
+        for k in range(0, KP + 1):
+            pres_ = [()] if k <= 2 else [(i,) for i in range(len(arc_types(n, caps)))]
+            jobs += [(n, k, pre, caps, rng.randrange(1 << 60), reps * (3 if n < 4 else 1)) for pre in pres_]
+    rng.shuffle(jobs)
+    scope_run("presentation diversity: exhaustive multisets of arcs", pmap(w_present_exh, jobs), nodes="2..4", max_arcs=KP,
+              capacities=list(caps), presentations_per_instance=f"{reps} (4 nodes), {3 * reps} (2-3 nodes); label schemes round "
+              "robin, arc order shuffled, the other transformers drawn per instance", exhaustive=True, **what)
+    bases = t6 + degenerate_cases()
+    chunks = [(bases[i::32], rng.randrange(1 << 60), 1 if ctx.quick else 6) for i in range(32)]
+    scope_run("presentation diversity: crossing template and degenerate shapes", pmap(w_present_list, chunks, chunksize=1),
+              bases=len(bases), presentations_per_instance=1 if ctx.quick else 6, **what)
+    plan = (("layered", 16, 0), ("random", 28, 9), ("reopen", 8, 0), ("paths", 8, 0)) if ctx.quick else \
+           (("layered", 600, 0), ("random", 900, 10), ("reopen", 300, 0), ("paths", 300, 0))
+    jobs = [(kind, rng.randrange(1 << 60), per, nmax) for kind, nj, nmax in plan for _ in range(nj)]
+    scope_run("presentation diversity: layered / random / re-open / path-system networks (seeded)", pmap(w_present_seeded, jobs),
+              runs={kind: nj * per for kind, nj, _ in plan}, nodes="2..40", **what)
+
     ctx.exhaustive = True
     ctx.notes["scope_results"] = notes
     sample_rng = random.Random(ctx.seed + 1)
@@ -851,10 +1035,18 @@ def run(ctx: Ctx):
                 "tuple form, steps). Per scope the evidence also counts the cases in which the reference Edmonds-Karp had to "
                 "traverse a residual twin (maximum unreachable by forward arcs only in that BFS order) and those in which "
                 "it saturated an arc, cancelled flow on it and pushed over it again. Size-ladder cases (10..2100 nodes) are "
-                "decided by certificate, not by enumeration.")
+                "decided by certificate, not by enumeration. A presented case (kind 'present') = plain instance + label specs + "
+                "presentation record (dict kind, adjacency kind, arc-record kind, number types, key mode, seed): the graph object is "
+                "built from it deterministically, max_flow is called twice on it, the answer is mapped back to 0..n-1 and judged "
+                "on the plain instance; distinct also by labels and presentation record.")
     ctx.assumptions += [
         "domain: source != sink (a source-sink cut must exist); capacities are Python ints >= 0",
-        "node labels are hashable and pairwise different (int, str, tuple, negative, falsy labels tried)",
+        "node labels are hashable and pairwise different as Python values (int, str, tuple, negative, falsy labels tried; round 3: "
+        "None, frozensets, pairs of nodes, str()-colliding, hash-colliding, and one node spelled by equal values of different "
+        "type such as 2 / 2.0 / True - Python's dict semantics make those the same node)",
+        "presentation diversity reads the signature `dict[Node, list[tuple[Node, int, ...]]]` by duck typing: dict subclasses, a "
+        "tuple as adjacency, a list as arc record and integral floats as capacities are accepted spellings; one-shot iterables, "
+        "bool and non-integral capacities are not used",
         "max-flow/min-cut weak duality (a feasible flow of value v and a cut of capacity v prove each other optimal)",
     ]
     ctx.assumptions += [
@@ -877,8 +1069,13 @@ def replay(rec):
         print("fresh process, equal dict           :", got)
         return 1 if got != json.loads(json.dumps(last["result"])) else 0
     out, info = eval_case(case)
-    g, lab = build_graph(case)
-    if case["n"] <= 40:
+    if case.get("kind") == "present":
+        g, lab, _back, src, snk = present(case)
+        print(f"presentation {case['pres']}\nmax_flow({g!r}, {src!r}, {snk!r})")
+        print("plain instance: n", case["n"], "arcs", case["arcs"], "source", case["s"], "sink", case["t"])
+    else:
+        g, lab = build_graph(case)
+    if case["n"] <= 40 and case.get("kind") != "present":
         print("graph:" if case.get("kind") != "history" else "initial graph:", g, "source:", lab[case["s"]], "sink:",
               lab[case["t"]])
     for k, st in enumerate(case.get("steps", [])):
